@@ -2,7 +2,7 @@
    Property theorems only; each is closed by lemmas of Proofs/Ldns*.v.
    The model is of the REPAIRED code (two fix: commits on dns.go); the *_orig definitions are the
    unchanged code and carry the ..._refuted witnesses. *)
-From GP Require Import Base N6Lib LdnsModel LdnsDec.
+From GP Require Import Base N6Lib LdnsModel LdnsDec LdnsSer.
 Open Scope Z_scope.
 
 (* ------------------------------------------------------------------ C19 *)
@@ -42,6 +42,48 @@ Example C05_dns_nonvacuous :
   d_answers (fst (fst (decode_into old [0;2;1;0; 0;0;0;0;0;0;0;0]))) = [] /\
   snd (fst (decode_into old [0;2;1;0; 0;0;0;0;0;0;0;0])) = Ok tt.
 Proof. vm_compute. repeat split. Qed.
+
+(* ------------------------------------------------------------------ C07 *)
+(* DNS.SerializeTo never panics: for EVERY layer value — whatever a successful or failed decode left
+   behind, or any value built from the public fields, with any private name metadata — every payload,
+   both option flags and every prior content of the buffer, each checked write of the model (data[i] =,
+   PutUint16/32(data[i:]), copy(data[i:], ..)) is in range: the sizing pass (computeSize, recSize,
+   dnsNameSize, the nil-data run of encodeDNSPresentationName) and the writing pass agree. *)
+Theorem C07_dns_no_panic : forall d payload fix_ csum junk,
+  is_panic (fst (serialize d payload fix_ csum junk)) = false.
+Proof. intros. rewrite serialize_eq_spec. apply ser_spec_no_panic. Qed.
+Print Assumptions C07_dns_no_panic.
+
+(* The outcome (bytes or error class) and the layer left behind (FixLengths stores the counts and the
+   DataLengths) do not depend on what the region returned by PrependBytes held before: every byte of
+   the 12+dsz requested bytes is written (ser_spec is a function of the value and the options only). *)
+Theorem C07_dns_junk_free : forall d payload fix_ csum junk1 junk2,
+  serialize d payload fix_ csum junk1 = serialize d payload fix_ csum junk2.
+Proof. intros. rewrite !serialize_eq_spec. reflexivity. Qed.
+Print Assumptions C07_dns_junk_free.
+
+(* the bytes written are the wire function of the value *)
+Theorem C07_dns_wire : forall d payload fix_ csum junk, serialize d payload fix_ csum junk = ser_spec d payload fix_.
+Proof. exact serialize_eq_spec. Qed.
+Print Assumptions C07_dns_wire.
+
+Example C07_dns_nonvacuous :
+  let d := fst (fst (decode_into dns_fresh
+     [0;1;129;128; 0;1;0;1;0;0;0;0; 1;97;0; 0;1;0;1; 192;12; 0;1;0;1; 0;0;0;9; 0;4; 1;2;3;4])) in
+  fst (serialize d [7] true true [170;170;170]) =
+  Ok [0;1;129;128; 0;1;0;1;0;0;0;0; 1;97;0; 0;1;0;1; 1;97;0; 0;1;0;1; 0;0;0;9; 0;4; 1;2;3;4; 7].
+Proof. vm_compute. reflexivity. Qed.
+
+(* the unchanged code: an A record decoded with RDLENGTH 0 has no address; its 4 RDATA bytes were
+   sized but never written, so the output showed the buffer's previous content *)
+Theorem C07_dns_junk_free_orig_refuted : exists d junk1 junk2,
+  d = fst (fst (decode_into dns_fresh [0;0;0;0; 0;0;0;0;0;0;0;1; 1;97;0; 0;1;0;1; 0;0;0;0; 0;0])) /\
+  snd (fst (decode_into dns_fresh [0;0;0;0; 0;0;0;0;0;0;0;1; 1;97;0; 0;1;0;1; 0;0;0;0; 0;0])) = Ok tt /\
+  fst (serialize_orig d [] true true junk1) <> fst (serialize_orig d [] true true junk2).
+Proof.
+  eexists. exists [], (repeat 170 40). split; [reflexivity|]. split; [vm_compute; reflexivity|].
+  vm_compute. discriminate.
+Qed.
 
 (* ------------------------------------------------------------------ C01 *)
 (* The renderers of a DNS layer are total on every state (see the comment at render_panics: the
